@@ -43,10 +43,14 @@ impl TxDependency {
         if self.index.load(Ordering::Relaxed) >= self.num_txs {
             return None;
         }
+        #[cfg(feature = "verif")]
+        crate::verif::point(crate::verif::pt::DEP_INDEX, 0);
         let index = self.index.fetch_add(1, Ordering::Relaxed);
         if index >= self.num_txs {
             return None;
         }
+        #[cfg(feature = "verif")]
+        crate::verif::lock_point(crate::verif::pt::LOCK_DEP_STATE, index, &self.dependent_state[index]);
         let mut state = self.dependent_state[index].lock();
         if state.onboard && state.dependency.is_none() {
             state.onboard = false;
@@ -65,11 +69,15 @@ impl TxDependency {
     /// its cursor position has already been passed; all other released work rewinds the cursor.
     pub(crate) fn remove(&self, txid: TxId, pop_next: bool) -> Option<TxId> {
         let mut next = None;
+        #[cfg(feature = "verif")]
+        crate::verif::lock_point(crate::verif::pt::LOCK_DEP_AFFECT, txid, &self.affect_txs[txid]);
         let mut affects = self.affect_txs[txid].lock();
         if affects.is_empty() {
             return next;
         }
         for &tx in affects.iter() {
+            #[cfg(feature = "verif")]
+            crate::verif::lock_point(crate::verif::pt::LOCK_DEP_STATE, tx, &self.dependent_state[tx]);
             let mut dependent = self.dependent_state[tx].lock();
             if dependent.dependency == Some(txid) {
                 dependent.dependency = None;
@@ -78,11 +86,15 @@ impl TxDependency {
                         dependent.onboard = false;
                         next = Some(tx);
                     } else {
+                        #[cfg(feature = "verif")]
+                        crate::verif::point(crate::verif::pt::DEP_INDEX, tx);
                         self.index.fetch_min(tx, Ordering::Relaxed);
                     }
                 }
             }
         }
+        #[cfg(feature = "verif")]
+        crate::verif::event(crate::verif::Event::DepRemove { txid, handoff: next });
         affects.clear();
         next
     }
@@ -91,9 +103,13 @@ impl TxDependency {
     pub(crate) fn commit(&self, txid: TxId) {
         let next = txid + 1;
         if next < self.num_txs {
+            #[cfg(feature = "verif")]
+            crate::verif::lock_point(crate::verif::pt::LOCK_DEP_STATE, next, &self.dependent_state[next]);
             let mut state = self.dependent_state[next].lock();
             if state.onboard {
                 state.dependency = None;
+                #[cfg(feature = "verif")]
+                crate::verif::point(crate::verif::pt::DEP_INDEX, next);
                 self.index.fetch_min(next, Ordering::Relaxed);
             }
         }
@@ -105,6 +121,10 @@ impl TxDependency {
     /// Once the committed prefix reaches `txid`, no barrier is installed and the cursor is rewound
     /// immediately; otherwise committing `txid - 1` releases it through [`Self::commit`].
     pub(crate) fn key_tx(&self, txid: TxId, commit_idx: PublishedCursorReader<'_>) {
+        #[cfg(feature = "verif")]
+        crate::verif::event(crate::verif::Event::KeyTx { txid });
+        #[cfg(feature = "verif")]
+        crate::verif::lock_point(crate::verif::pt::LOCK_DEP_STATE, txid, &self.dependent_state[txid]);
         let mut state = self.dependent_state[txid].lock();
         if txid > commit_idx.get() {
             state.dependency = Some(txid);
@@ -112,6 +132,8 @@ impl TxDependency {
         if !state.onboard {
             state.onboard = true;
         }
+        #[cfg(feature = "verif")]
+        crate::verif::point(crate::verif::pt::DEP_INDEX, txid);
         if state.dependency.is_none() {
             self.index.fetch_min(txid, Ordering::Relaxed);
         }
@@ -126,13 +148,21 @@ impl TxDependency {
     /// `dep_id` must be a strict predecessor of `txid`. Besides matching transaction order, this
     /// preserves the global lock order used below.
     pub(crate) fn add(&self, txid: TxId, dep_id: Option<TxId>) {
+        #[cfg(feature = "verif")]
+        crate::verif::event(crate::verif::Event::DepAdd { txid, dep: dep_id });
         if let Some(dep_id) = dep_id {
             assert!(
                 dep_id < txid,
                 "dependency transaction {dep_id} must precede dependent transaction {txid}",
             );
+            #[cfg(feature = "verif")]
+            crate::verif::lock_point(crate::verif::pt::LOCK_DEP_AFFECT, dep_id, &self.affect_txs[dep_id]);
             let mut dep = self.affect_txs[dep_id].lock();
+            #[cfg(feature = "verif")]
+            crate::verif::lock_point(crate::verif::pt::LOCK_DEP_STATE, dep_id, &self.dependent_state[dep_id]);
             let mut dep_state = self.dependent_state[dep_id].lock();
+            #[cfg(feature = "verif")]
+            crate::verif::lock_point(crate::verif::pt::LOCK_DEP_STATE, txid, &self.dependent_state[txid]);
             let mut state = self.dependent_state[txid].lock();
             state.dependency = Some(dep_id);
             if !state.onboard {
@@ -143,14 +173,20 @@ impl TxDependency {
             if !dep_state.onboard {
                 dep_state.onboard = true;
             }
+            #[cfg(feature = "verif")]
+            crate::verif::point(crate::verif::pt::DEP_INDEX, dep_id);
             if dep_state.dependency.is_none() {
                 self.index.fetch_min(dep_id, Ordering::Relaxed);
             }
         } else {
+            #[cfg(feature = "verif")]
+            crate::verif::lock_point(crate::verif::pt::LOCK_DEP_STATE, txid, &self.dependent_state[txid]);
             let mut state = self.dependent_state[txid].lock();
             if !state.onboard {
                 state.onboard = true;
                 state.dependency = None;
+                #[cfg(feature = "verif")]
+                crate::verif::point(crate::verif::pt::DEP_INDEX, txid);
                 self.index.fetch_min(txid, Ordering::Relaxed);
             }
         }
